@@ -142,12 +142,51 @@ Theorem C20_model_holds : forall m hdr is_file other bytes,
 Proof. exact model_holds. Qed.
 Print Assumptions C20_model_holds.
 
-(* ---- non-vacuity / worked examples (all three kinds, an error, a header) ---- *)
+(* a text source made from an already decoded text (ModuleTextSource::new_unknown, used by
+   parse_module_from_ast) never offers original bytes *)
+Theorem C20_new_unknown : forall t,
+  original_bytes (new_unknown t) = None /\ s_text (new_unknown t) = t.
+Proof. exact new_unknown_no_original. Qed.
+Print Assumptions C20_new_unknown.
+
+(* ---- JSR packages whose version manifest carries the module info (deferred content fill) ----
+   Full statement for that route: C20_Holds m hdr false other bytes (obs_of (jsr_fill_model m bytes))
+   for every header the loader supplied with the content.  It is FALSE of the faithful model
+   (C20_jsr_fill_ignores_header_refuted, known finding F-C20a, confirmed on the real code in every
+   run): the route drops the response headers and always decodes as UTF-8.  Proved instead: the
+   property holds whenever the header names no charset or a UTF-8 label, and the original-bytes
+   guarantee holds unconditionally. *)
+Theorem C20_jsr_fill_holds_outside_known_class : forall m hdr other bytes,
+  c20_jsr_class hdr other bytes = false ->
+  C20_Holds m hdr false other bytes (obs_of (jsr_fill_model m bytes)).
+Proof. exact jsr_fill_holds_outside_class. Qed.
+Print Assumptions C20_jsr_fill_holds_outside_known_class.
+
+Theorem C20_jsr_fill_original_bytes : forall m bytes json s,
+  jsr_fill_model m bytes = OModule json s ->
+  original_bytes s = None \/ original_bytes s = Some bytes.
+Proof. exact jsr_fill_original_bytes. Qed.
+Print Assumptions C20_jsr_fill_original_bytes.
 
 (* "text/javascript; charset=utf-16be" *)
 Definition hdr_js_utf16be : list N :=
   [116; 101; 120; 116; 47; 106; 97; 118; 97; 115; 99; 114; 105; 112; 116; 59; 32; 99; 104; 97; 114; 115; 101; 116;
    61; 117; 116; 102; 45; 49; 54; 98; 101].
+
+(* Known finding F-C20a: bytes 00 41 served with charset=utf-16be are "A"; the deferred fill stores
+   the two bytes as UTF-8 text instead. *)
+Theorem C20_jsr_fill_ignores_header_refuted :
+  exists m hdr other bytes,
+    c20_jsr_class hdr other bytes = true /\
+    ~ C20_Holds m hdr false other bytes (obs_of (jsr_fill_model m bytes)).
+Proof.
+  exists MJs, (Some hdr_js_utf16be), None, [0x00; 0x41]. split; [vm_compute; reflexivity|].
+  intro H. apply holdsb_correct in H. vm_compute in H. discriminate.
+Qed.
+Print Assumptions C20_jsr_fill_ignores_header_refuted.
+
+(* ---- non-vacuity / worked examples (all three kinds, an error, a header) ---- *)
+
 (* "application/json; a=b;  charset=bogus " *)
 Definition hdr_json_bogus : list N :=
   [97; 112; 112; 108; 105; 99; 97; 116; 105; 111; 110; 47; 106; 115; 111; 110; 59; 32; 97; 61; 98; 59; 32; 32; 99;
